@@ -9,6 +9,7 @@ import (
 	"path/filepath"
 	"sort"
 
+	"voicheck/ect"
 	"voicheck/edt"
 	"voicheck/load"
 )
@@ -54,6 +55,7 @@ func init() {
 		panic("fieldnames.json: " + err.Error())
 	}
 	edt.FieldNames = func(k string) []string { return recordedFieldNames[k] }
+	ect.RecordedFieldNames = edt.FieldNames
 	if err := json.Unmarshal(globalsJSON, &load.RecordedGlobals); err != nil {
 		panic("globals.json: " + err.Error())
 	}
